@@ -226,4 +226,9 @@ def plan(tier):
                             'run_detached), k = the mutex acquisition of the submission in front of which the complete stop() lands (1..3; beyond the last one: after the submission), drain]; full product',
                       bounds='one submission, one stop(); the other thread\'s stop() runs as a whole between two critical sections of the submission',
                       outside='raw-handle kinds (known finding D9); pre-emption inside a critical section (lock discipline: C03)'))
+    units.append(dict(common, name='h_batch_wake', entry='h_batch_wake', vectors=[[n, m, pk] for n in (0, 1) for m in (0, 1) for pk in (0, 1)],
+                      concrete=[([0, 0, 0], []), ([1, 1, 1], []), ([0, 1, 0], [])],
+                      space='a batch of 2..3 units in one suspend point handed to a pool of 2..3 parked workers (pool.resume(sp)); the unit that runs first does not return before its siblings have run '
+                            '(it lets the other runnable workers run meanwhile) x whom notify_one wakes; full product',
+                      bounds='<= 3 workers, <= 3 units', outside='see h_pool'))
     return units
